@@ -31,6 +31,14 @@ def run(tier, seed, replay):
                         evs.append(json.loads(line))
                     except Exception:
                         pass
+                elif line.startswith('["FF"'):
+                    e = json.loads(line)
+                    rep.violation("foreign-free:%s" % e[1].split(":")[0],
+                                  "the free function installed through jwt_set_alloc received a block that the installed malloc function never returned "
+                                  "(scenario %s, failing allocation %s)" % (e[1], e[2] or "none"), dict(scenario=e[1], k=e[2]))
+                elif line.startswith('["PT"'):
+                    e = json.loads(line)
+                    rep.count("blocks_tracked_through_installed_allocator", e[1])
     total_n = sum(s["n"] for s in scen.values())
     covered = set()
     for e in evs:
@@ -71,6 +79,7 @@ def run(tier, seed, replay):
     for si, s in list(scen.items())[:3]:
         rep.sample(s)
     vf.need(rep, len(scen) >= 30, "too few scenarios (%d)" % len(scen))
+    vf.need(rep, rep.counters.get("blocks_tracked_through_installed_allocator", 0) > 10000, "allocator tracking saw nothing")
     vf.need(rep, missing == 0, "%d injection points were not executed (shard died too often?)" % missing)
     vf.need(rep, rep.counters.get("outcome.reported", 0) > 100, "too few reported failures observed")
     return rep
